@@ -27,7 +27,13 @@ for p in props:
     level = "proof" if proved else "other"
     text = c["text"]
     if proved:
-        text += " Kernel-checked theorems: " + ", ".join(proved) + "."
+        main = ent["theorems"][0]
+        text = ("PROVED in Lean 4 about the executable model, for every input with no bound on sizes, depths or steps (" +
+                main["name"].split(".")[-1] + "): " + main["reads"] + ". TIE TO THE CODE, checked on every run: " + c["text"] +
+                " A code change that breaks the property makes the implementation disagree with a model that provably has it, "
+                "exactly on the inputs where the property fails; the check then reports the failing input as replay. "
+                "All audited theorems of this property (#print axioms within propext / Classical.choice / Quot.sound): " +
+                ", ".join(proved) + ".")
     if pending:
         text += " Not (yet) theorem-backed, covered by correspondence + Lean Bool spec on the implementation's output only: " + "; ".join(pending) + "."
     checks.append({
